@@ -290,7 +290,27 @@ pub fn run_c14_raw_forms(cfg: &Cfg) -> Report {
         cx.rep.cov(&format!("raw_form:{}", what));
         true
     }
-    par_cases(cfg, "raw.forms", n, |cx| {
+    let mut grid = par_cases(cfg, "raw.gas_grid", 13 * 5 * 7 * 3 * 3, |cx| {
+        // every address space x access size x a grid of widths / offsets / addresses
+        let mut i = cx.idx;
+        let space = (i % 13) as u8;
+        i /= 13;
+        let access = (i % 5) as u8;
+        i /= 5;
+        let width = [0u8, 1, 8, 16, 32, 64, 255][(i % 7) as usize];
+        i /= 7;
+        let offset = [0u8, 1, 255][(i % 3) as usize];
+        i /= 3;
+        let addr = [0u64, 0x1000, 0xFFFF_8000_0000_0001][(i % 3) as usize];
+        let g = crate::tables::ops::GasArg { space, width, offset, access, addr };
+        let o = mk_gas(&g);
+        cx.eval();
+        if cmp(cx, "gas::GAS", o.as_bytes(), &o, format!("{:?}", g)) {
+            cx.rep.distinct(&cx.idx);
+        }
+    });
+    grid.exhaustive("C14 raw form of gas::GAS over 13 address spaces x 5 access sizes x 7 widths x 3 offsets x 3 addresses");
+    let mut rep_forms = par_cases(cfg, "raw.forms", n, |cx| {
         let mut r = cx.rng.clone();
         cx.eval();
         match cx.idx % 8 {
@@ -341,7 +361,9 @@ pub fn run_c14_raw_forms(cfg: &Cfg) -> Report {
                 }
             }
         }
-    })
+    });
+    rep_forms.merge(grid);
+    rep_forms
 }
 
 /// C15: alternative construction paths.
